@@ -29,7 +29,7 @@ static int work(int id)
 // arguments).  Call f = 40 + overload number; argument i of call f must arrive as f * 100 + i; the function reports
 // ---- mode 6: Future<Res> with a result type that owns heap memory; every second future is destroyed WITHOUT join while its
 // call may still be running: the destructor has to wait for the call, and the result object has to outlive it
-static int g_resOwner = -1;            // id of the call whose Future<Res> is being constructed (its embedded result picks it up)
+static __thread int g_resOwner = -1;            // id of the call whose Future<Res> is being constructed (its embedded result picks it up)
 struct Res
 {
   int* p; int owner; bool alive;
